@@ -61,7 +61,7 @@ def key(t, dt, sysname, mode, leaf=""):
 
 
 def slots_of(t):
-    return sorted({s for (s, _, _) in t.inputs.values() if s})
+    return sorted({s[0] for (s, _, _) in t.inputs.values() if s})
 
 
 def si_leaf(leaf):
@@ -178,7 +178,7 @@ def run_one(ctx, t, dt, pack, sysname, reg, base_units, alts):
     # third oracle: an out= buffer handed over in ANOTHER unit of the same dimension must come back denoting the
     # same quantities as with a buffer in the inputs' unit (handlers relabel or convert, never keep a stale label)
     if exact_sys and stb == "ok" and "out" in inpl and t.inputs["out"][0] is not None and not noncov:
-        slot = t.inputs["out"][0]
+        slot = t.inputs["out"][0][0]
         alt_unit = SLOT_LETTER[slot] + "q"
         ctx.count("evaluations")
         ko = R.mk_unyt(t, data, base_units, registry=reg)
